@@ -21,6 +21,12 @@ RULE = ("Laws: generated boxes of dimension 1-4 (normal / point / flat / inverte
         "compared with its snapshot; the returned projection must realise the returned distance); uniform power-of-two scales "
         "2^-20..2^20 of boxes, vectors and triangles (exact modes stay exact, tolerances are relative); integer-typed Vec inputs of the "
         "triangle / angle functions; every law call goes through a wrapper asserting its arguments and numpy.geterr() unchanged. "
+        "Third round: every law call returning a container (array, list, tuple of arrays, box) is followed by an in-place change of that "
+        "result by its owner (overwrite / append / pad) and an identical second call, which must give the first answer again with "
+        "unchanged arguments (results that are an argument, a cached object or internal state fail; documented numpy views of an array "
+        "argument are not scribbled on); nested / equal box pairs (3 in 10); clouds of 1500-4000 points (1 in 5). In the histories each "
+        "box a step returns is a handle of its own, so a pad of one handle that changes another handle is reported even when the "
+        "library returned the same object twice; macros pad the result of a union / intersection of nested, equal or identical boxes. "
         "Side effects: an operation history (2-25 ops over AABB.*, Vec.*, geometry.*, rotations.*, maths.* and a harness-level "
         "numpy.seterr change), arguments either fresh literals (list/tuple/float array/int array/Vec) or references to arrays "
         "and boxes created earlier in the same history (so boxes share caller arrays and other boxes' corners); about one op in "
@@ -299,7 +305,7 @@ def aabb_case(draw):
         pad = draw(vec_st(mode, dim))
     s = 1.0 if intpts else draw(st.sampled_from(SCALES))
     return {"mode": mode, "dim": dim, "b1": scaled(b1, s), "b2": scaled(b2, s), "pts": scaled(pts, s), "cloud": scaled(cloud, s),
-            "cloud_pad": padc * s, "pad": scaled(pad, s), "scale": s,
+            "cloud_pad": padc * s, "pad": scaled(pad, s), "scale": s, "big": draw(st.sampled_from([0] * 9 + [1500, 4000])),
             "form": draw(st.sampled_from(FORMS)), "pform": draw(st.sampled_from(INT_FORMS if intpts else FORMS)),
             "cform": draw(st.sampled_from(["list", "f8", "vecs", "i8"]))}
 
@@ -476,6 +482,16 @@ def fn_aabb(case, ctx):
                 if pd == 0:
                     ctx.check(all(bool(np.all(clo <= q) and np.all(q <= chi)) for q in C), "AABB.of_points:contains", f"a point of {cloud} outside [{clo},{chi}]")
 
+    if case.get("big"):
+        # size regime: a cloud well above any plausible internal threshold (coordinates derived from the case alone)
+        ctx.label("cloud=big")
+        big = np.random.RandomState(case["big"] + dim).randint(-4096, 4097, size=(case["big"], dim)) / 8.0 * case.get("scale", 1.0)
+        ok, cb = gcall(ctx, "AABB.of_points", AABB.of_points, big, float(case["cloud_pad"]))
+        if ok and isinstance(cb, AABB):
+            clo, chi = corners(cb, "AABB.of_points")
+            if clo is not None:
+                ctx.check(same(clo, big.min(axis=0) - float(case["cloud_pad"])) and same(chi, big.max(axis=0) + float(case["cloud_pad"])), "AABB.of_points:tight",
+                          f"of_points({case['big']} points, padding={case['cloud_pad']}) = [{clo},{chi}], expected [{big.min(axis=0) - case['cloud_pad']},{big.max(axis=0) + case['cloud_pad']}]")
     if dim == 3:
         from vlib.build import pointcloud_from, coords
         pc = pointcloud_from(cloud)
